@@ -543,8 +543,8 @@ def check_paths(fx, R, cq, cname):
             # `decomposition(JtJ_).solve(JtY_)` applies the inverse of the normal matrix without naming the stored inverse
             def solves_normal(t):
                 if isinstance(t, tuple):
-                    if t and t[0] == '.solve' and len(t) == 3 and contains_name(t[1], 'this.JtJ_') and contains_name(t[2], 'this.JtY_'):
-                        return True
+                    if t and t[0] == '.solve' and len(t) == 3 and contains_name(t[2], 'this.JtY_') and (contains_name(t[1], 'this.JtJ_') or (isinstance(t[1], str) and t[1].startswith('this.'))):
+                        return True          # a stored factorisation object: which matrix it holds is decided by value (L7, closed form on the instances)
                     return any(solves_normal(y_) for y_ in t)
                 return False
             if 'this.inverseJtJ_' in absent and rres and all(solves_normal(r_) for r_ in rres):
@@ -907,8 +907,28 @@ def check_instance(fx, R, cq, cname):
                 if lsmodel.same_matrix(got, expected):
                     R.holds('L7', pinst, 'exactly %s' % what, fx.rel(f['loc']), 'E-ALG')
                     continue
-                all_ok = False
                 fs = set().union(*[x.free_symbols for x in got])
+                if what.startswith('inverseJtJ_') and fs & old_state and not (fs & stale_rows):
+                    # the stored inverse is not refreshed by the solve: it may be formed on demand.  What the property fixes is the QUERY: computeEstimateCovariance() is read on the state this solve left
+                    fcov = fx.one(cq + '::computeEstimateCovariance')
+                    lazy = None
+                    if fcov is not None:
+                        try:
+                            var_ = sp.Symbol('dataVarianceQ', positive=True)
+                            st_q = st.copy()
+                            st_q.ret, st_q.returned, st_q.cond = None, False, []
+                            cvs = lsmodel.run(fx, fcov, inst, state=st_q, args=[var_])
+                            want_c = inst.A.T * (J3.T * J3).inv() * inst.A * var_
+                            if cvs and all(isinstance(c_.ret, sp.MatrixBase) and lsmodel.same_matrix(c_.ret, want_c) for c_ in cvs):
+                                lazy = True
+                        except (sym.Unsupported, Exception):
+                            lazy = None
+                    if lazy:
+                        R.used(fcov)
+                        R.holds('L7', pinst, 'the stored inverse is formed on demand: computeEstimateCovariance() read on the state this solve left returns exactly A^T (J^T J)^-1 A * variance of the current rows',
+                                fx.rel(f['loc']), 'E-ALG')
+                        continue
+                all_ok = False
                 if fs & stale_rows:
                     sy = sorted(map(str, fs & stale_rows))[0]
                     R.violated('L7', '%s::%s:stale-rows' % (cname, name), 'on the instance with %d current rows in a buffer of %d, the result of %s()%s contains %s, an entry of a row beyond the current problem '
